@@ -8,7 +8,8 @@ LEVEL = "proof"
 TECHNIQUE = "Coq model of the tokener state machine (TokModel.v) with theorems on number/escape decoding + extracted-model/C differential correspondence + independent RFC 8259 denotation oracle"
 RULE = ("RFC 8259 texts rendered from seeded syntax trees (all escape forms, surrogate combinations, number shapes around 2^63/2^64, "
         "whitespace layouts, duplicate members), each parsed NUL-terminated in default and strict mode; non-trivial = accepted with a "
-        "container or escape or non-integer inside; distinct by text")
+        "container or escape or non-integer inside; distinct by text; a sixth of the texts also under a comma-decimal caller locale "
+        "(process-wide and per-thread) through parse_ex, parse_verbose and parse")
 ASSUMPTIONS = ["strtod is correctly rounded (checked against Python's float() on every run)",
                "the extracted model uses OCaml float_of_string as the strtod oracle"]
 LEVEL_TEXT = ("Theorem parse_valid (Coq, no axioms, nested induction over syntax trees, no bound on size or depth): for EVERY RFC 8259 syntax tree "
@@ -43,6 +44,12 @@ def gen(rng, tier):
         if i % 8 == 0 and jsongen.nest(s) < 32:
             meta = {"kind": kind + "-verbose", "stx": s, "text": t, "flags": 0, "entry": "V"}
             out.append((line(32, 0, ["V" + hx(t), "W" + hx(t)]), meta))
+        # the same under a caller's comma-decimal locale, process-wide (setlocale) or for the calling thread only
+        # (uselocale): the value a valid text denotes does not depend on it (all four entry points)
+        if i % 6 == 1 and jsongen.nest(s) < 32:
+            m = rng.choice("GT")
+            meta = {"kind": kind + "-locale" + m, "stx": s, "text": t, "flags": 0, "entry": "L"}
+            out.append((line(32, 0, ["L" + m, "Z" + hx(t), "V" + hx(t), "W" + hx(t), "LC"]), meta))
     return out
 
 
@@ -56,18 +63,62 @@ def expect(meta):
     return ("accept", "success %d %s" % (len(t), jvtext.dump(v)))
 
 
+def simple_expect(line_):
+    import json
+    f = line_.split(" ")
+    if len(f) != 4 or ";" in f[3] or f[3][:1] != "Z":
+        return None
+    try:
+        t = bytes.fromhex(f[3][1:]).decode("ascii")
+
+        def conv(v):
+            if v is None or isinstance(v, bool):
+                return v
+            if isinstance(v, int):
+                if not (jvtext.INT64_MIN <= v <= jvtext.UINT64_MAX):
+                    raise ValueError
+                return ("i", v) if v <= jvtext.INT64_MAX else ("u", v)
+            if isinstance(v, str):
+                return v.encode("utf-8")
+            if isinstance(v, list):
+                return [conv(x) for x in v]
+            if isinstance(v, Pairs):
+                d = {}
+                for k, x in v.items:
+                    d[k] = x          # first-occurrence order, last value
+                return ("o", [(k.encode("utf-8"), conv(x)) for k, x in d.items()])
+            raise ValueError
+
+        class Pairs:
+            def __init__(self, items):
+                self.items = items
+        v = json.loads(t, object_pairs_hook=Pairs, parse_float=lambda x: (_ for _ in ()).throw(ValueError()), parse_constant=lambda x: (_ for _ in ()).throw(ValueError()))
+        return "success %d %s" % (len(t), jvtext.dump(conv(v)))
+    except Exception:
+        return None
+
+
 def oracle(line_, meta, impl):
     if "CRASH" in impl:
         return ("crash", "implementation crashed: " + impl[:100])
     if "LEAK" in impl:
         return ("leak", impl[-30:])
     if "stx" not in meta:
+        # a hand-written text (fixed list, recorded witness of a known finding): the denotation of an
+        # integer/string/container-only document through Python's own RFC 8259 reader
+        want = simple_expect(line_)
+        if want is not None and impl != want:
+            cls = "name_nul_truncated" if "5c7530303030" in line_ else "wrong-value"
+            return (cls, "text %s: got %s want %s" % (line_[:80], impl[:80], want[:80]))
         return None
     kind, want = expect(meta)
     if meta.get("entry") == "V" and kind == "accept":
         # "success <len> <dump>" -> "success <dump> | parse <dump or - for null>"
         dump = want.split(" ", 2)[2]
         want = "success %s | parse %s" % (dump, "-" if dump == "n" else dump)
+    if meta.get("entry") == "L" and kind == "accept":
+        dump = want.split(" ", 2)[2]
+        want = "locale | %s | success %s | parse %s | locale" % (want, dump, "-" if dump == "n" else dump)
     if kind == "reject":
         if impl.startswith("success"):
             return ("bigint-strict-accepted", "integer beyond 64 bits accepted in strict mode: " + impl[:80])
